@@ -29,6 +29,11 @@ import (
 //
 // It does not register a property; c15.go calls it.
 func c15Guards(c *Ctx) {
+	// the shape rules below recognise particular ways of writing the accessors; the clauses themselves are decided on
+	// the real band object by the R8 rules (c15_e1.go), so an unrecognised shape is a note, a refutation still counts
+	c.Run.Advisory("R1.signedindex", "R8.index")
+	c.Run.Advisory("R3.complement", "R8.partition")
+	c.Run.Advisory("R6.lookupsearch", "R8.lookup")
 	c15SignedIndex(c)
 	c15WhoWrites(c)
 	c15Complement(c)
@@ -143,7 +148,9 @@ func c15ChannelFieldName(fa *ssa.FieldAddr) string {
 func c15WhoWrites(c *Ctx) {
 	r := c.Run
 	P := c.Prog
-	r.Rule("R2.whowrites", "outside new*Band the channel tables are only changed by `.enabled` stores in Enable/DisableUplinkChannelIndex and by AddChannel appending one custom:true value to both tables; the tables never escape")
+	r.Rule("R2.whowrites", "outside new*Band the channel tables are only written by Enable/DisableUplinkChannelIndex (the `.enabled` field) and by AddChannel (table re-assignment), or by helpers only they call; the tables never escape. What these three write is decided by R8.index / R8.addchannel")
+	r.Rule("R2.addshape", "(shape; advisory, backed by R8.addchannel) AddChannel appends one composite literal with custom:true to both tables")
+	r.Advisory("R2.addshape", "R8.addchannel")
 	fns := c15BandFunctions(c)
 	if len(fns) == 0 {
 		r.Unknown("R2.whowrites", "band", "", "package band loaded", "no functions")
@@ -151,7 +158,7 @@ func c15WhoWrites(c *Ctx) {
 	}
 	E := guardsEngine(P)
 	nStores, nTableStores, nUses := 0, 0, 0
-	sawEnable, sawDisable, sawAdd := false, false, false
+	sawAdd := false
 	// constructor-only helpers: unexported functions every caller of which (in the whole program's call graph) is a
 	// constructor or such a helper; their stores are constructor stores
 	topOf := func(f *ssa.Function) *ssa.Function {
@@ -188,10 +195,59 @@ func c15WhoWrites(c *Ctx) {
 			}
 		}
 	}
+	// mutator-only helpers: unexported functions every caller of which is AddChannel / Enable- / DisableUplinkChannelIndex
+	// or such a helper; what the three mutators do to the tables is decided exactly by R8.index / R8.addchannel
+	isMutName := func(f *ssa.Function) string {
+		switch guards.FuncShort(f) {
+		case "band.AddChannel":
+			return "add"
+		case "band.EnableUplinkChannelIndex", "band.DisableUplinkChannelIndex":
+			return "flag"
+		}
+		return ""
+	}
+	mutOnly := map[*ssa.Function]string{}
+	for changed := true; changed; {
+		changed = false
+		for _, f := range fns {
+			if f.Parent() != nil || mutOnly[f] != "" || isMutName(f) != "" || f.Object() == nil || f.Object().Exported() {
+				continue
+			}
+			n := cg.Nodes[f]
+			if n == nil || len(n.In) == 0 {
+				continue
+			}
+			kind := ""
+			for _, e := range n.In {
+				if e.Caller.Func.Synthetic != "" {
+					continue // promoted-method wrappers of the embedding band types
+				}
+				caller := topOf(e.Caller.Func)
+				k := isMutName(caller)
+				if k == "" {
+					k = mutOnly[caller]
+				}
+				if k == "" || (kind != "" && kind != k) {
+					kind = ""
+					break
+				}
+				kind = k
+			}
+			if kind != "" {
+				mutOnly[f] = kind
+				changed = true
+				r.Saw("mutator-only helpers (all callers are AddChannel or Enable/DisableUplinkChannelIndex)", guards.FuncShort(f))
+			}
+		}
+	}
 	for _, f := range fns {
 		name := guards.FuncShort(f)
 		top := topOf(f)
 		isCtor := isCtorName(top) || ctorOnly[top]
+		mutKind := isMutName(top)
+		if mutKind == "" {
+			mutKind = mutOnly[top]
+		}
 		r.Saw("band functions scanned for channel-table writes", name)
 		for _, b := range f.Blocks {
 			for _, ins := range b.Instrs {
@@ -205,16 +261,8 @@ func c15WhoWrites(c *Ctx) {
 						nStores++
 						field := c15ChannelFieldName(fa)
 						key := fmt.Sprintf("band.%s/store Channel.%s", name, field)
-						allowed := isCtor || ((name == "band.EnableUplinkChannelIndex" || name == "band.DisableUplinkChannelIndex") && field == "enabled")
-						if name == "band.EnableUplinkChannelIndex" && field == "enabled" {
-							k, isConst := x.Val.(*ssa.Const)
-							sawEnable = isConst && k.Value != nil && k.Value.String() == "true"
-						}
-						if name == "band.DisableUplinkChannelIndex" && field == "enabled" {
-							k, isConst := x.Val.(*ssa.Const)
-							sawDisable = isConst && k.Value != nil && k.Value.String() == "false"
-						}
-						r.Check(allowed, "R2.whowrites", key, P.Rel(x.Pos()), "only .enabled in Enable/DisableUplinkChannelIndex (or a constructor) writes a table element", "store to Channel."+field+" in "+name, true)
+						allowed := isCtor || (mutKind == "flag" && field == "enabled")
+						r.Check(allowed, "R2.whowrites", key, P.Rel(x.Pos()), "only .enabled in Enable/DisableUplinkChannelIndex (or a helper only they call, or a constructor) writes a field of a table element", "store to Channel."+field+" in "+name, true)
 						continue
 					}
 					// (2) whole-element store into a []Channel
@@ -235,13 +283,18 @@ func c15WhoWrites(c *Ctx) {
 							r.OK("R2.whowrites", key, P.Rel(x.Pos()), "table assigned in a constructor", name, false)
 							continue
 						}
-						if name != "band.AddChannel" {
-							r.Bad("R2.whowrites", key, P.Rel(x.Pos()), "only AddChannel re-assigns a channel table", "assignment in "+name)
+						if mutKind != "add" {
+							r.Bad("R2.whowrites", key, P.Rel(x.Pos()), "only AddChannel (or a helper only it calls) re-assigns a channel table", "assignment in "+name)
 							continue
 						}
 						sawAdd = true
-						ok2, why := c15AddChannelAppend(E, f, x, field)
-						r.Check(ok2, "R2.whowrites", key, P.Rel(x.Pos()), "AddChannel: table = append(table, c) with c.custom = true, same c for both tables", why, true)
+						r.OK("R2.whowrites", key, P.Rel(x.Pos()), "table re-assigned by AddChannel only", name, true)
+						// what is appended is decided exactly by R8.addchannel; the syntactic form is only recorded
+						if ok2, why := c15AddChannelAppend(E, f, x, field); ok2 {
+							r.OK("R2.addshape", key, P.Rel(x.Pos()), "AddChannel: table = append(table, c) with c.custom = true, same c for both tables", why, true)
+						} else {
+							r.Unknown("R2.addshape", key, P.Rel(x.Pos()), "AddChannel: table = append(table, c) with c.custom = true, same c for both tables", why)
+						}
 					}
 				}
 				// (4) the tables do not escape: a loaded table value is only measured, indexed, ranged or appended to
@@ -258,7 +311,6 @@ func c15WhoWrites(c *Ctx) {
 			}
 		}
 	}
-	r.Check(sawEnable && sawDisable, "R2.whowrites", "band/enable-disable constants", "", "EnableUplinkChannelIndex stores true and DisableUplinkChannelIndex stores false", fmt.Sprintf("enable=true:%v disable=false:%v", sawEnable, sawDisable), false)
 	if !sawAdd {
 		r.Unknown("R2.whowrites", "band.AddChannel", "", "AddChannel assigns the tables", "no table assignment found in AddChannel")
 	}
